@@ -287,6 +287,7 @@ def main():
     run.assume('a, b > 0', 'spsolve contract: returned x satisfies a x = b', 'linearity in the loads is a corollary of K c = f for a non-singular reduced matrix')
     run.outside = ['StiffPanelBay.calc_fext (claimed with C13)', 'orders above the bound']
     res = pmap(kprop.job, [(__name__, c) for c in cf])
+    res = kprop.explore_loci(__name__, res, run)      # second pass: the equality loci the executed code branched on
     kprop.handle(run, res, build, 'load vector entries differ from the virtual work of the loads')
     sres = pmap(job_solve, solve_configs(run.tier))
     for r in sres:
